@@ -157,6 +157,11 @@ func (m *MonC03) OnPassEnd(w *World, p *Pass) {
 		if !ok || i == 0 {
 			continue
 		}
+		if isSpecPaused(owner) && r.GVK.Group == PKOGroup {
+			// a paused ObjectSet hands its paused state to every delegated phase; the
+			// (paused) phase object is bookkeeping, no object of the phase is written
+			continue
+		}
 		m.touch()
 		for j := 0; j < i; j++ {
 			okj, _, why := phaseObserved(w, p, owner, phases[j], probes, r.Seq)
